@@ -57,7 +57,7 @@ InitAny ==
     /\ dep = 0
 
 Layout == [bufs |-> [b \in B |-> [bits |-> bufs[b].bits, rc |-> bufs[b].rc, borrowed |-> IF bufs[b].borrowed THEN 1 ELSE 0]], hs |-> hs]
-Emit(op, args) == PrintT(<<"REPLAY", ToJson([pre |-> Layout, op |-> op, args |-> args, post |-> ghost'])>>)
+Emit(op, args) == PrintT(<<"REPLAY", ToJson([pre |-> Layout, op |-> op, args |-> args, post |-> ghost', starts |-> [h \in H |-> hs'[h].s]])>>)
 
 \* pick the smallest free handle / buffer (symmetry reduction by construction)
 MinFree(S) == CHOOSE x \in S : \A y \in S : x <= y
@@ -116,10 +116,13 @@ SubstrAbsH == Start = "any" /\ \E h \in H, i \in AbsPos, j \in AbsPos : Live(h) 
 \* otherwise the bits are copied left-aligned into a fresh buffer (zero padded)
 \* returns <<bufs2, handle2>>; needs a free buffer when it copies
 DetachOf(bs, hh) ==
-  IF bs[hh.buf].rc = 1 THEN <<bs, hh>>
-  ELSE LET nb == MinFree({b \in B : bs[b].rc = 0})
+  \* the sole owner keeps buffer and range only when the value starts at bit 0 (Legacy "detachstart": whenever it is the
+  \* sole owner - then where a result starts depended on who else held the buffer, visible through open-bitstr / offset)
+  IF bs[hh.buf].rc = 1 /\ (hh.s = 0 \/ "detachstart" \in Legacy) THEN <<bs, hh>>
+  ELSE LET rel == Release(bs, hh.buf)
+           nb == MinFree({b \in B : rel[b].rc = 0})
            bits == IF HLen(hh) = 0 THEN <<>> ELSE Pad8(SubSeq(bs[hh.buf].bits, hh.s + 1, hh.e)) IN
-       <<[Release(bs, hh.buf) EXCEPT ![nb] = [bits |-> bits, rc |-> 1, borrowed |-> (HLen(hh) = 0)]],
+       <<[rel EXCEPT ![nb] = [bits |-> bits, rc |-> 1, borrowed |-> (HLen(hh) = 0)]],
          [buf |-> nb, s |-> 0, e |-> HLen(hh)]>>
 CanDetach(bs, hh) == bs[hh.buf].rc = 1 \/ {b \in B : bs[b].rc = 0} # {}
 
